@@ -616,3 +616,6 @@ add("box-projector-with-identical-ends", F, ["C06"], "dfols/controller.py", "   
     "                proj = lambda x: pbox(x, self.model.xbase + self.model.su, self.model.xbase + self.model.su)", "C06-7")
 # C18-3b: pre-repair form of F18f
 add("initial-radius-not-validated-against-the-cap", F, ["C18"], "dfols/solver.py", "    if exit_info is None and rhobeg > 1.0e10:\n", "    if exit_info is None and rhobeg > 1.0e300:\n", "C18-3b")
+# C07-3: inverted guard of a documented invalid-argument class
+add("missing-lipschitz-constant-guard-inverted", F, ["C07"], "dfols/solver.py", "        elif lh is None:\n            exit_info = ExitInformation(EXIT_INPUT_ERROR, \"Must provide lh input if h is not None\")",
+    "        elif lh is not None:\n            exit_info = ExitInformation(EXIT_INPUT_ERROR, \"Must provide lh input if h is not None\")", "inverted-guard")
